@@ -1,12 +1,15 @@
 SPECIFICATION Spec
 CONSTANTS
- Threads = {1,2}
+ Threads = {1}
  Recs = {1,2,3}
- MaxOps = 4
+ OpsA = 5
+ OpsB = 0
+ MaxOps <- MC_Ops
  MaxDepth = 3
  MaxCatch = 1
  FormIds = {1}
  Discipline = "any"
+ Forgetting = TRUE
 INVARIANTS TypeOK NoStaleDispatch NoDangling InnermostWins TlsInnermost ThreadIsolation ExactlyOnce PayloadFidelity FallThroughOrder SavedIsPrevious
 PROPERTIES RestoreOnScopeEnd
 CHECK_DEADLOCK FALSE
